@@ -4,7 +4,7 @@
    resp. the per-operation contract stated on rows/corners) without running the model's step. *)
 From Coq Require Import List NArith ZArith Bool Arith.
 From Coq Require Import QArith Qabs Qcanon.
-From PF Require Export Mesh.Pure Mesh.GenIdx Mesh.Smooth.
+From PF Require Export Mesh.Pure Mesh.GenIdx Mesh.Smooth Mesh.Normals.
 Import ListNotations.
 Close Scope Qc_scope.
 Close Scope Q_scope.
@@ -58,7 +58,11 @@ Inductive case :=
 | CKeep (was now : mesh)
 (* a case judged by the harness alone (meshes too large for Coq literals: the disjoint-union law of the
    tile stream); the number is the vertex count, for the record *)
-| CNote (n : N).
+| CNote (n : N)
+(* unit-vector value maps (normalise, smooth / implicit-weld / flat normals): the implementation's output as
+   exact dyadic rationals, compared with (numerator vector) / sqrt(squared length) computed in Z from the
+   integer mesh (Mesh/Normals.v units_ok: |o - n/sqrt(len2)| <= 2e-9, decided in Q by squaring) *)
+| CUnit (k : nkind) (idx : list nat) (d : list vec) (out : list (list (Z * Z))).
 
 (* predicates used by the attribute filters of the harness *)
 Inductive pdesc := PGe (c : nat) (t : Z) | PLe (c : nat) (t : Z) | PEven (c : nat) | PAll | PNone.
@@ -148,6 +152,7 @@ Definition corr_ok (c : case) : bool :=
   | CLaw _ _ => true
   | CLap t idx d f k out => lap_ok t idx d f k out
   | CKeep _ _ | CNote _ => true
+  | CUnit k idx d out => units_ok k idx d out
   end.
 
 (* ------------------------------------------------------------------ C02: the direct oracle is wfb *)
@@ -165,6 +170,7 @@ Definition prop_c02 (c : case) : bool :=
   | CLap _ _ _ _ _ _ => true
   | CKeep was now => negb (wfb was) || wfb now
   | CNote _ => true
+  | CUnit _ _ _ _ => true
   end.
 
 (* ------------------------------------------------------------------ C03: per-operation contracts *)
@@ -422,4 +428,5 @@ Definition prop_c03 (c : case) : bool :=
   | CLap t idx d f k out => lap_ok t idx d f k out
   | CKeep was now => mesh_eqb was now
   | CNote _ => true
+  | CUnit k idx d out => units_ok k idx d out
   end.
